@@ -1976,6 +1976,10 @@ vinsertpair(VGROUP *vg,  /* IN: vgroup struct */
     /* clear error stack */
     HEclear();
 
+    /* the number of members is a 16-bit quantity, in memory and in the file */
+    if (vg->nvelt == 65535)
+        HGOTO_ERROR(DFE_RANGE, FAIL);
+
     if ((int)vg->nvelt >= vg->msize) {
         vg->msize *= 2;
 
@@ -2077,6 +2081,10 @@ Vsetname(int32       vkey, /* IN: vgroup key */
 
     name_len = strlen(vgname); /* shortcut of length of the given name */
 
+    /* the length of the name is stored in the file as a 16-bit quantity */
+    if (name_len > 65535)
+        HGOTO_ERROR(DFE_ARGS, FAIL);
+
     /* if name exists, release it */
     free(vg->vgname);
 
@@ -2144,6 +2152,10 @@ Vsetclass(int32       vkey, /* IN: vgroup key */
      */
 
     classname_len = strlen(vgclass); /* length of the given class name */
+
+    /* the length of the class name is stored in the file as a 16-bit quantity */
+    if (classname_len > 65535)
+        HGOTO_ERROR(DFE_ARGS, FAIL);
 
     /* if name exists, release it */
     free(vg->vgclass);
